@@ -96,6 +96,9 @@ func c13aParams(thorough bool) []c13aParam {
 	// sequences without any one-difference father: their lines are compared by extendSimilarityGraph
 	// (distance >= 2), each worker with its own alignment scratch buffer
 	add("two-edit-pair", []string{base, "aagtaa", "acgtgg"}, []int{9, 2, 1})
+	// the same without any abundance difference: every line goes through extendSimilarityGraph and every
+	// two-edit pair is linked from the earlier to the later record (ties are linked at distance > 1)
+	add("two-edit-ties", []string{base, "aagtaa", "acgtgg"}, []int{2, 2, 2})
 	add("two-edit-12mers", []string{"acgtacgtacgt", "aagtacgtaagt", "acgacgtacgtt", "acgtacggtacgtt"}, []int{9, 3, 2, 1})
 	if thorough {
 		add("two-edit-three", []string{base, "aagtaa", "acgtgg", "ccgtcc"}, []int{9, 3, 2, 1})
